@@ -15,16 +15,16 @@ checks that the implementation panics exactly where the model says and nowhere e
 -/
 namespace Wellen.VcdBody
 
-theorem C15_prefix_events (stop : Option Nat) (bs1 bs2 : List Nat) :
-    ∃ c, c <+: evsOf (parseBody stop (bs1 ++ bs2)) ∧
-      (evsOf (parseBody stop bs1) = c ∨ ∃ x, evsOf (parseBody stop bs1) = c ++ [x]) :=
-  prefix_events stop bs1 bs2
+theorem C15_prefix_events (stop : Option Nat) (bs1 bs2 : List Nat) (nl : Bool) :
+    ∃ c, c <+: evsOf (parseBody stop (bs1 ++ bs2) nl) ∧
+      (evsOf (parseBody stop bs1 nl) = c ∨ ∃ x, evsOf (parseBody stop bs1 nl) = c ++ [x]) :=
+  prefix_events stop bs1 bs2 nl
 
-theorem C15_boundary_exact (stop : Option Nat) (bs1 bs2 : List Nat) (m' : M)
-    (hm : runM stop {} bs1 = .cont m') (hb : m'.first = []) (hst : m'.st ≠ .idTok) :
-    evsOf (parseBody stop bs1) <+: evsOf (parseBody stop (bs1 ++ bs2)) ∧
-    parseBody stop bs1 = .ok m'.evs.reverse :=
-  prefix_events_at_boundary stop bs1 bs2 m' hm hb hst
+theorem C15_boundary_exact (stop : Option Nat) (bs1 bs2 : List Nat) (nl : Bool) (m' : M)
+    (hm : runM stop (initM nl) bs1 = .cont m') (hb : m'.first = []) (hst : m'.st ≠ .idTok) :
+    evsOf (parseBody stop bs1 nl) <+: evsOf (parseBody stop (bs1 ++ bs2) nl) ∧
+    parseBody stop bs1 nl = .ok m'.evs.reverse :=
+  prefix_events_at_boundary stop bs1 bs2 nl m' hm hb hst
 
 /-- non-vacuity: cutting `…\n#12|3\n1!` inside the timestamp yields the time 12 as the one extra event -/
 example : evsOf (parseBody none [10, 35, 53, 10, 49, 33, 10, 35, 49, 50]) =
